@@ -13,6 +13,7 @@
 //  6. map reads / writes       -> simrt.MR / simrt.MW probes (happens-before race probe)
 //  7. simrt.P(site) before every statement (site marker + optional preemption)
 //  8. -const2var: listed constants become variables (tuning knobs)
+//  9. debug.Stack()            -> simrt.Stack() (constant text unless SIM_REAL_STACK is set)
 //
 // Anything in a position the rewriter does not handle stops it with exit status 2
 // (fail closed): the check then reports "could not be built", never pass or violation.
@@ -248,7 +249,7 @@ func (r *rewriter) run() {
 	if r.needSimrt {
 		astutil.AddNamedImport(r.fset, r.file, "simrt", "simrt")
 	}
-	for _, path := range []string{"runtime", "time"} {
+	for _, path := range []string{"runtime", "time", "runtime/debug"} {
 		if importsPath(r.file, path) && !astutil.UsesImport(r.file, path) {
 			astutil.DeleteImport(r.fset, r.file, path)
 		}
@@ -430,6 +431,14 @@ func (r *rewriter) exprPass() {
 				ex := e
 				actions = append(actions, func() {
 					ex.Fun = simrtSel("Gosched")
+					r.needSimrt = true
+				})
+			case r.isPkgFunc(e.Fun, "runtime/debug", "Stack"):
+				// goaterr captures a stack trace for every error value; no oracle reads it and it
+				// dominates the cost of histories with many refused operations
+				ex := e
+				actions = append(actions, func() {
+					ex.Fun = simrtSel("Stack")
 					r.needSimrt = true
 				})
 			case r.isPkgFunc(e.Fun, "time", "Sleep"):
